@@ -13,11 +13,14 @@ QUICK_OK = set('''op2_a0o0_b1o0_r1 op2_a0o0_b2o0_r0 op2_a0o0_b3o0_r1 op2_a2o0_b1
 op0_a0o0_b0o0_r0 op0_a0o0_b2u0_r0 op0_a2u0_b0o0_r0 op2_a2o0_b2o0_r0 op1_a0o0_b0o0_r0 op2_a1o0_b2u0_r1 op0_a1o0_b1o0_r0 op2_a1o0_b0o0_r1 op2_a2o0_b0o0_r0
 op2_a2u0_b0o0_r0 op2_a3o0_b0o0_r1 op2_a0o0_b0o0_r0 op2_a1o0_b1o0_r0
 op1_a1o0_b1o0_r0 op1_a1o0_b3o0_r0 op1_a1o0_b3u0_r0 op1_a2o0_b0o0_r0 op1_a2u0_b0o0_r0 op1_a2o0_b2o0_r0 op1_a2o0_b2u0_r0 op1_a2u0_b2o0_r0 op1_a2u0_b2u0_r0
-op1_a3o0_b1o0_r0 op1_a3u0_b1o0_r0 op1_a0o0_b2o0_r0 op1_a0o0_b2u0_r0'''.split())
+op1_a3o0_b1o0_r0 op1_a3u0_b1o0_r0 op1_a0o0_b2o0_r0 op1_a0o0_b2u0_r0
+op2_a2u0_b2o0_r0'''.split())
 def queries(tier):
     qs = _queries(tier)
-    THOROUGH_OK = QUICK_OK | set('op1_a3o0_b3o0_r0'.split())   # measured; every other shape (ordered results of odd sums, update-sketch operand forms, 3+3 unions, the public lg_k 5 union) had no verdict in 600 s
+    THOROUGH_OK = QUICK_OK | set('op1_a3o0_b3o0_r0 op2_a2u0_b2u0_r0'.split())   # measured; every other shape (ordered results of odd sums, update-sketch operand forms, 3+3 unions, the public lg_k 5 union) had no verdict in 600 s
     if not os.environ.get('C02_ALL'): qs = [q for q in qs if q.name in (QUICK_OK if tier == 'quick' else THOROUGH_OK)]
+    for q in qs:
+        if q.name.startswith('op2_a2u0_b2'): q.timeout = max(q.timeout, 900)   # hash-based a-not-b scan of an unordered A: ~190 s measured, heavy-tailed
     return qs
 def _queries(tier):
     qs = []
